@@ -81,6 +81,16 @@ def queries(tier):
                                 group="c20/proto_pipe.c", concrete=True,
                                 params={"entry_point": "%s pipe_init / pipe_start, then the core's pipe_close, pipe_stop, pipe_fini" % pn,
                                         "failing_allocation": ("allocator request #%d after the connection arrived" % k) if kind == 0 else "insertion into the socket's pipe table"}))
+    # the core cannot complete a pipe after the transport's p_init ran (pipe_create fails: id or protocol state): the reaper's p_close, p_stop, p_fini
+    # run on a transport pipe that never reached an endpoint / a stream / a pair (finding F29)
+    for tr, tn in ((0, "tcp"), (1, "sockfd"), (2, "ipc")):
+        qs.append(Query("allocfail-unfinished-pipe-%s" % tn, "c01/stream_tran.c", tus=C01.TUS, env=C01.ENV, defs={"TRAN": tr, "MODE": 8}, cdefs=["-DENV_MSG_CAP=24"], unwind=12,
+                        unwind_rules=C13.KIT_RULES, timeout=120, concrete=True, group="~c01/stream_tran.c#unfinished",
+                        params={"entry_point": "%s transport p_init, then the reaper's p_close, p_stop, p_fini" % tn, "failing_allocation": "pipe id / protocol per-pipe state in pipe_create"}))
+    qs.append(Query("allocfail-unfinished-pipe-udp", "c11/udp_rx.c", tus=["core/list.c", "core/lmq.c"],
+                    env=["env_alloc.c", "env_misc.c", "env_sync.c", "env_aio.c", "env_msg.c", "env_pipe.c", "env_idmap.c", "env_libc.c"],
+                    defs={"OP": 0, "NB": 12, "FROM": 0, "UNFINISHED": 1}, cdefs=["-DENV_MSG_CAP=24"], unwind=30, timeout=120, concrete=True, group="~c11/udp_rx.c#unfinished",
+                    params={"entry_point": "udp transport p_init, then the reaper's p_close, p_stop, p_fini", "failing_allocation": "pipe id / protocol per-pipe state in pipe_create"}))
     # stream transport listeners: resource exhaustion in the accept path (stream accept or pipe allocation) costs one connection, not the listener
     from props import C14
     for q in C14.tran_listener_queries(tier):
@@ -88,7 +98,7 @@ def queries(tier):
             q.group = "~" + q.group + "#c20"
             qs.append(q)
     for q in C14.inproc_ep_queries(tier):
-        if "failpair" in q.name:
+        if "failpair" in q.name or "failpipe" in q.name:
             qs.append(q)
     # HTTP head parser: the connection object's setters fail with NNG_ENOMEM (the parser itself allocates nothing)
     HREQ = ["GET /a HTTP/1.1\r\nK: v\r\n\r\n", None, None, "A /b HTTP/2\r\nK: v\r\nL: w\r\n\r\n"]
